@@ -43,9 +43,10 @@ V6F(k, extra) == <<FO("L3", <<6>>), FN("L3.Version", 6), FN("L3.TrafficClass", 1
                    FO("L3.Src", A6a), FO("L3.Dst", A6b)>> \o L4F(k, extra)
 L3O(v6, k, extra) == IF v6 THEN V6O(k, extra) ELSE V4O(k, extra)
 L3F(v6, k, extra) == IF v6 THEN V6F(k, extra) ELSE V4F(k, extra)
-EthO(vlan, v6, k, extra) == Mac2 \o Mac1 \o (IF vlan > 0 THEN <<129, 0>> \o U16(vlan) ELSE <<>>)
+(* vlan = -1: untagged; otherwise the 802.1Q TCI (0 = priority-tagged frame with VLAN id 0) *)
+EthO(vlan, v6, k, extra) == Mac2 \o Mac1 \o (IF vlan >= 0 THEN <<129, 0>> \o U16(vlan) ELSE <<>>)
                             \o (IF v6 THEN <<134, 221>> ELSE <<8, 0>>) \o L3O(v6, k, extra)
-EthF(vlan, v6, k, extra) == <<FO("L2.SrcMAC", Mac1), FO("L2.DstMAC", Mac2), FN("L2.Vlan", vlan),
+EthF(vlan, v6, k, extra) == <<FO("L2.SrcMAC", Mac1), FO("L2.DstMAC", Mac2), FN("L2.Vlan", IF vlan >= 0 THEN vlan ELSE 0),
                               FN("L2.EtherType", IF v6 THEN 34525 ELSE 2048)>> \o L3F(v6, k, extra)
 (* a sampled packet: [proto (sFlow header protocol), o: octets, f: expected fields] *)
 Pkt(hp, vlan, v6, k, extra) ==
@@ -78,20 +79,22 @@ CounterS(k, recs) == [kind |-> "counter",
                               [n |-> "SourceIDIdx", o |-> <<0, 1, 2, 3>>], [n |-> "RecordsNo", o |-> W(Len(recs))]>>,
                       recs |-> recs]
 Sample(name) ==
-  CASE name = "f_tcp"    -> FlowS(1, <<RawRec(Pkt(1, 0, FALSE, "tcp", Extra(0)))>>)
+  CASE name = "f_tcp"    -> FlowS(1, <<RawRec(Pkt(1, -1, FALSE, "tcp", Extra(0)))>>)
     [] name = "f_vlan"   -> FlowS(2, <<RawRec(Pkt(1, 100, FALSE, "udp", Extra(1))), SwitchRecA>>)
     [] name = "f_v6"     -> FlowS(3, <<SwitchRecA, RawRec(Pkt(1, 4095, TRUE, "tcp", Extra(2))), RouterRecA(TRUE)>>)
-    [] name = "f_icmp6"  -> FlowS(4, <<OtherRec(5), RawRec(Pkt(1, 0, TRUE, "icmp", Extra(3))), RouterRecA(FALSE)>>)
+    [] name = "f_icmp6"  -> FlowS(4, <<OtherRec(5), RawRec(Pkt(1, -1, TRUE, "icmp", Extra(3))), RouterRecA(FALSE)>>)
     [] name = "f_ip4"    -> FlowS(5, <<RawRec(Pkt(11, 0, FALSE, "icmp", Extra(1))), VendorRec>>)
     [] name = "f_ip6"    -> FlowS(6, <<RawRec(Pkt(12, 0, TRUE, "udp", Extra(0)))>>)
     [] name = "f_ip4tcp" -> FlowS(7, <<RouterRecA(FALSE), RawRec(Pkt(11, 0, FALSE, "tcp", Extra(2))), OtherRec(0)>>)
     [] name = "f_none"   -> FlowS(8, <<>>)
+    [] name = "f_tci0"   -> FlowS(12, <<RawRec(Pkt(1, 0, FALSE, "udp", Extra(2))), [t |-> "other", tag |-> <<0, 0, 0, 0>>, body |-> Extra(8)]>>)  \* priority-tagged frame; record format 0
     [] name = "c_gen"    -> CounterS(9, <<CounterRecA(1), CounterRecA(2)>>)
     [] name = "c_rings"  -> CounterS(10, <<CounterRecA(3), OtherCRec, CounterRecA(4)>>)
     [] name = "c_vlan"   -> CounterS(11, <<CounterRecA(5), CounterRecA(1001)>>)
     [] name = "x_expflow" -> [kind |-> "other", tag |-> <<0, 0, 0, 3>>, body |-> Extra(44)]
     [] name = "x_expctr" -> [kind |-> "other", tag |-> <<0, 0, 0, 4>>, body |-> Extra(0)]
     [] name = "x_vendor" -> [kind |-> "other", tag |-> <<0, 1, 16, 2>>, body |-> Extra(16)]
+    [] name = "x_zero"   -> [kind |-> "other", tag |-> <<0, 0, 0, 0>>, body |-> Extra(12)]       \* sample type 0: unknown, skipped by its length
 SampleFmt(s) == IF s.kind = "flow" THEN 1 ELSE IF s.kind = "counter" THEN 2
                 ELSE IF s.tag[1] # 0 \/ s.tag[2] # 0 \/ s.tag[3] >= 16 THEN -1 ELSE (s.tag[3] % 16) * 256 + s.tag[4]
 RECURSIVE FoldRecs(_, _)
